@@ -28,6 +28,7 @@ func runC20(c *Ctx) {
 	ruleClassify(c)
 	ruleInfoState(c)
 	ruleLookupErrorKept(c, "CLASSIFY")
+	ruleLabelOwner(c, "CLASSIFY")
 	if m := findTT(c, "CLASSIFY"); m != nil {
 		ruleKeyAddr(c, m, "CLASSIFY") // the address classified for tunnel time is the client's own
 	}
@@ -1038,81 +1039,81 @@ func backwardDeps(v ssa.Value) map[ssa.Value]bool {
 // variable is lost: the caller sees nil and exports the partial answer instead of XD.)
 func ruleLookupErrorKept(c *Ctx, rule string) {
 	p := c.P
-	n := 0
+	thirdParty := func(call *ssa.Call) bool {
+		pkgPath := ""
+		if call.Call.IsInvoke() {
+			if call.Call.Method.Pkg() != nil {
+				pkgPath = call.Call.Method.Pkg().Path()
+			}
+		} else if h := call.Call.StaticCallee(); h != nil && h.Pkg != nil {
+			pkgPath = h.Pkg.Pkg.Path()
+		}
+		return pkgPath != "" && !strings.HasPrefix(pkgPath, eng.Mod) && strings.Contains(strings.SplitN(pkgPath, "/", 2)[0], ".")
+	}
+	// functions of the location package that (transitively, inside the package) make a database call with an error result
+	var fns []*ssa.Function
 	for _, f := range p.FnsIn("ipinfo") {
-		if p.IsTestSupport(f) || len(f.Blocks) == 0 || f.Name() != "GetIPInfo" {
+		if !p.IsTestSupport(f) && len(f.Blocks) > 0 {
+			fns = append(fns, f)
+		}
+	}
+	looks := map[*ssa.Function]bool{}
+	for changed := true; changed; {
+		changed = false
+		for _, f := range fns {
+			if looks[f] {
+				continue
+			}
+			for _, cl := range eng.Calls(f) {
+				call, ok := cl.(*ssa.Call)
+				if !ok || errorResultIndex(call.Call.Signature()) < 0 {
+					continue
+				}
+				if thirdParty(call) || looks[call.Call.StaticCallee()] {
+					looks[f] = true
+					changed = true
+				}
+			}
+		}
+	}
+	n := 0
+	for _, f := range fns {
+		if !looks[f] || errorResultIndex(f.Signature) < 0 {
 			continue
 		}
-		if errorResultIndex(f.Signature) < 0 {
+		// the classifier itself (GetIPInfoFromIP and its callers) turns the error into the XD label: it is the consumer, not a
+		// link of the chain; the chain ends at the method that implements the database interface
+		if f.Signature.Recv() == nil && !looksOnlyThroughHelpers(f, looks) {
 			continue
 		}
+		k := 0
 		for _, cl := range eng.Calls(f) {
 			call, ok := cl.(*ssa.Call)
-			if !ok {
+			if !ok || errorResultIndex(call.Call.Signature()) < 0 {
 				continue
 			}
-			ei := errorResultIndex(call.Call.Signature())
-			if ei < 0 {
-				continue
-			}
-			// a call into a package outside the module and outside the standard library
-			pkgPath := ""
-			if call.Call.IsInvoke() {
-				if call.Call.Method.Pkg() != nil {
-					pkgPath = call.Call.Method.Pkg().Path()
-				}
-			} else if h := call.Call.StaticCallee(); h != nil && h.Pkg != nil {
-				pkgPath = h.Pkg.Pkg.Path()
-			}
-			if pkgPath == "" || strings.HasPrefix(pkgPath, eng.Mod) || !strings.Contains(strings.SplitN(pkgPath, "/", 2)[0], ".") {
+			if !thirdParty(call) && !looks[call.Call.StaticCallee()] {
 				continue
 			}
 			n++
-			var errV ssa.Value = call
-			if call.Call.Signature().Results().Len() > 1 {
-				errV = nil
-				for _, r := range *call.Referrers() {
-					if ex, ok := r.(*ssa.Extract); ok && ex.Index == ei {
-						errV = ex
-					}
-				}
-			}
-			key := fmt.Sprintf("%s:lookup#%d(%s):error-reaches-the-result", short(f), n, eng.CalleeName(&call.Call))
-			if errV == nil {
-				c.CheckAt(rule, key, call, false, "the error of this database lookup is discarded: a failed lookup is exported as the (partial) answer instead of XD")
-				continue
-			}
-			_, fail := p.SuccessEdges(f, []ssa.CallInstruction{call}, ei)
-			reach := map[*ssa.BasicBlock]bool{}
-			if len(fail) == 0 {
-				reach = eng.ReachBlocks(call.Block(), nil)
-				reach[call.Block()] = true
-			}
-			for e := range fail {
-				reach[e.To] = true
-				for b := range eng.ReachBlocks(e.To, nil) {
-					reach[b] = true
-				}
-			}
-			good, nr := true, 0
-			var badAt ssa.Instruction = call
-			fe := errorResultIndex(f.Signature)
-			for _, r := range eng.Returns(f) {
-				if !reach[r.Block()] || fe >= len(r.Results) {
-					continue
-				}
-				nr++
-				rv := r.Results[fe]
-				if s := p.ReachingStore(rv, r); s != nil {
-					rv = s
-				}
-				if !backwardDeps(rv)[errV] {
-					good = false
-					badAt = r
-				}
-			}
-			c.CheckAt(rule, key, badAt, good && nr > 0, "the error of this database lookup does not reach the error returned on a path on which the lookup failed (e.g. it is assigned to a shadowed variable): the caller sees no error and exports the partial answer instead of XD")
+			k++
+			good, at, _ := errorKept(c, f, call)
+			c.CheckAt(rule, fmt.Sprintf("%s:lookup#%d(%s):error-reaches-the-result", short(f), k, eng.CalleeName(&call.Call)), at, good, "the error of this database lookup does not reach the error returned on a path on which the lookup failed (e.g. it is assigned to a shadowed variable): the caller sees no error and exports the partial answer instead of XD")
 		}
 	}
 	c.Floor(rule, "database lookups with an error result in the location package", n, 2)
+}
+
+// looksOnlyThroughHelpers: a plain function of the package that is a helper of the database method (called by a function that
+// itself looks up), as opposed to the classifier that consumes the error.
+func looksOnlyThroughHelpers(f *ssa.Function, looks map[*ssa.Function]bool) bool {
+	if f.Referrers() == nil {
+		return false
+	}
+	for _, r := range *f.Referrers() {
+		if cl, ok := r.(ssa.CallInstruction); ok && cl.Parent() != nil && looks[cl.Parent()] && cl.Parent().Signature.Recv() != nil {
+			return true
+		}
+	}
+	return false
 }
